@@ -153,7 +153,7 @@ func Quote(u []uint16) []uint16 {
 }
 
 // QuoteHTMLSafe is Quote followed by the distortion of finding C11-STRINGIFY-ESCAPES: '<' '>' '&'
-// U+2028 U+2029 written as < > &     (what Go's encoding/json emits).
+// U+2028 U+2029 written as \u003c \u003e \u0026 \u2028 \u2029 (what Go's encoding/json emits).
 func QuoteHTMLSafe(u []uint16) []uint16 {
 	q := Quote(u)
 	out := make([]uint16, 0, len(q))
